@@ -146,6 +146,30 @@ def run(tier, seed):
                 break
             cached = [c for c in cached if not (c == k)] + [k]
             cached = cached[-cap:]
+    # a wrapped function that calls itself through the wrapper (memoised recursion): values stay right and the cache
+    # never holds more than max_length entries, whatever the nesting
+    nrec = 0
+    for cap in (1, 2, 3, 5):
+        for seqn in ([5], [8, 3, 8], [2, 9, 4, 9, 1], [6, 6, 7]):
+            nrec += 1
+            box = {}
+
+            def fibf(n):
+                return n if n < 2 else box["f"](n - 1) + box["f"](n - 2)
+            box["f"] = lru_cache(lambda n: n, cap)(fibf)
+            cacher = [c.cell_contents for c in box["f"].__closure__ if isinstance(c.cell_contents, LRUCacher)][0]
+            ref = lambda n: n if n < 2 else ref(n - 1) + ref(n - 2)  # noqa: E731
+            for n in seqn:
+                try:
+                    got = box["f"](n)
+                except KeyError:
+                    got = "KeyError"
+                if got != ref(n) or len(cacher.cache) > cap:
+                    if len(fails) < 20:
+                        fails.append({"property": "C20", "signature": "lru-reentrant",
+                                      "what": "memoised recursion fib(%d) with max_length %d: returned %s (reference %s), cache holds %d entries"
+                                              % (n, cap, got, ref(n), len(cacher.cache)), "cap": cap, "calls": seqn})
+                    break
     resps = Driver().batch(reqs)
     for (cap, calls, keymod), real, resp in zip(hist, reals, resps):
         if canon(resp) != canon(real):
@@ -159,7 +183,8 @@ def run(tier, seed):
             "exhaustive": True,
             "disagreements": disagreements, "oracle_failures": fails,
             "distribution": {"histories": len(hist), "with_eviction": evictions, "max_len_exhaustive": maxlen,
-                             "histories_with_falsy_results": nfalsy, "histories_with_colliding_hashes": nexo}}
+                             "histories_with_falsy_results": nfalsy, "histories_with_colliding_hashes": nexo,
+                             "reentrant_histories": nrec}}
 
 
 if __name__ == "__main__":
